@@ -643,6 +643,25 @@ def templates():
         bias = p.randn((out_f,)) if p.rng.random() < 0.5 else None
         return lambda: F.linear(a, w, bias)
 
+    @reg("linear_reused_weight")
+    def _(p, a):
+        # the same weight object serves several calls and is overwritten in place in between (swapping frozen weights,
+        # averaging checkpoints): the second call must use what the weight holds now
+        out_f = int(SIZES[p.rng.integers(len(SIZES))])
+        in_f = a.shape[-1]
+        kind = ["w8a0", "wf8a0", "w8a0", "act8"][p.rng.integers(4)]
+        if out_f == 1 or in_f == 1:
+            kind = "act8"
+        w, _k = p.partner((out_f, in_f), kind)
+        w2, _k = p.partner((out_f, in_f), kind)
+        bias = p.randn((out_f,)) if p.rng.random() < 0.5 else None
+
+        def prog():
+            F.linear(a, w, bias)
+            w.copy_(w2)
+            return F.linear(a, w, bias)
+        return prog
+
     @reg("linear_rev")
     def _(p, a):
         # a is the weight, a fresh activation is the input
